@@ -297,10 +297,59 @@ let eval_big (v : M.variant) (rest : string) : string =
   model_taints := Array.of_list (List.rev !taints);
   String.concat ";" (List.rev !outs)
 
+
+(* ------------------------------------------------------------------ T lines: heapq.Sort observed
+   through digests (harness/cmd/heapqtrace/r4.go).  T <mode><dir><G>[+<off>] *)
+type tline = { tmode : char; tdir : int; tg : gspec; toff : int }
+let tline_opt rest =
+  if String.length rest < 4 || not (rest.[0] = 'x' || rest.[0] = 'q') then None else
+  match dir_opt (String.sub rest 1 1) with
+  | None -> None
+  | Some d ->
+    let gs = String.sub rest 2 (String.length rest - 2) in
+    let (gs, off) = (match String.index_opt gs '+' with
+      | Some i -> (String.sub gs 0 i, int_opt (String.sub gs (i+1) (String.length gs - i - 1)))
+      | None -> (gs, Some 0)) in
+    (match gspec_opt gs, off with
+     | Some g, Some o when o >= 0 && o <= big_max_n -> Some { tmode = rest.[0]; tdir = d; tg = g; toff = o }
+     | _ -> None)
+let t_elems t : e list = List.mapi (fun j k -> (k, j + 1)) (gkeys t.tg)
+(* the comparison class of an element: what a sorted arrangement is determined by *)
+let t_class d ((k, p) : e) = match d with 4 | 5 -> k / 4 | 6 -> 0 | 7 -> p | _ -> k
+(* the record of a window that holds r after the call (nothing outside it touched) *)
+let t_render ~exact d (r : e list) =
+  let inv = ref 0 and first = ref (-1) in
+  let rec scan i = function
+    | a :: (b :: _ as tl) -> if kcmp d a b > 0 then begin (if !inv = 0 then first := i); incr inv end; scan (i + 1) tl
+    | _ -> () in
+  scan 0 r;
+  Printf.sprintf "n%d,%s,o0,c%s,p%s%s" (List.length r)
+    (if !inv = 0 then "i0" else Printf.sprintf "i%d@%d" !inv !first)
+    (fnv64 (String.concat "," (List.map (fun x -> string_of_int (t_class d x)) r)))
+    (fnv_elems (List.sort compare r))
+    (if exact then ",x" ^ fnv_elems r else "")
+(* lines of mode x, and all lines of at most this many elements, are replayed on the extracted model *)
+let t_replayed_upto = 128
+
 let eval_with_ (v : M.variant) (inp : string) : string =
   match cut_kind inp with
   | ("B", rest) -> eval_big v rest
   | ("Z", rest) -> eval_z M.zset64 rest
+  | ("T", rest) ->
+    (match tline_opt rest with
+     | None -> "?"
+     | Some t ->
+       let l = t_elems t in
+       if t.tmode = 'x' || t.tg.gn <= t_replayed_upto then
+         (match M.q_sort v (z_of_int t.tdir) (List.map me l) with
+          | M.Ok r -> t_render ~exact:(t.tmode = 'x') t.tdir (List.map em r)
+          | M.IndexPanic -> "PANIC:index"
+          | M.OutOfFuel -> "FUEL")
+       else
+         (* not replayed (the list-based model is quadratic): the record of mode q consists of
+            values that every sorted permutation of the input shares, and the model's Sort returns
+            one (theorem C05_sort); they are computed here with OCaml's own sort *)
+         t_render ~exact:false t.tdir (List.stable_sort (kcmp t.tdir) l))
   | ("S", rest) ->
     if rest = "" then "?" else
     (match dir_opt (String.sub rest 0 1), elems_opt (String.sub rest 1 (String.length rest - 1)) with
@@ -418,6 +467,25 @@ let check_sort rest out =
     let rec sorted = function a :: (b :: _ as t) -> kcmp d a b <= 0 && sorted t | _ -> true in
     if not (sorted r) then failf "Sort output is not in non-decreasing order"
   | _ -> ()
+
+(* T lines: the property on the digests.  A sorted arrangement of the input has exactly one sequence
+   of comparison classes (computed here from the input with OCaml's sort under the comparison
+   written out above) and, being a permutation, the input's digest when sorted by (key, payload). *)
+let check_sort_digest rest out =
+  match tline_opt rest with
+  | None -> ()
+  | Some t ->
+    if String.length out >= 5 && String.sub out 0 5 = "PANIC" then failf "Sort panicked";
+    let l = t_elems t in
+    (match String.split_on_char ',' out with
+     | n :: i :: _o :: c :: p :: _ ->
+       if n <> "n" ^ string_of_int t.tg.gn then failf "Sort: the argument has %s elements after the call, %d before" n t.tg.gn;
+       if p <> "p" ^ fnv_elems (List.sort compare l) then
+         failf "Sort output is not a permutation of its argument (digest of the argument's %d elements sorted by (key, payload): %s, of the input's: p%s)" t.tg.gn p (fnv_elems (List.sort compare l));
+       if i <> "i0" then failf "Sort output is not in non-decreasing order (adjacent pairs out of order: %s)" i;
+       let want = fnv64 (String.concat "," (List.map (fun x -> string_of_int (t_class t.tdir x)) (List.stable_sort (kcmp t.tdir) l))) in
+       if c <> "c" ^ want then failf "Sort output is not the sorted arrangement of the input (digest of its comparison classes %s, of the sorted input's c%s)" c want
+     | _ -> failf "Sort: record %s" (if String.length out > 60 then String.sub out 0 60 else out))
 
 let check_history (prop : string) (rest : string) (out : string) : unit =
   let c05 = (prop <> "C06") and c06 = (prop = "C06") in
@@ -752,6 +820,7 @@ let check prop inp out : string option =
        if prop <> "C06" && out <> "?" && out <> "ok " ^ rest then
          failf "Set on %s elements of a zero-size type: %s (Set must leave a valid heap of that many elements)" rest out
      | ("S", rest) -> if prop <> "C06" then check_sort rest out
+     | ("T", rest) -> if prop <> "C06" then check_sort_digest rest out
      | ("H", rest) -> check_history prop rest out
      | _ -> ());
     None
@@ -784,6 +853,7 @@ let spec prop inp out =
   match check prop inp out with
   | None -> None
   | Some reason when fst (cut_kind inp) = "Z" -> spec_z prop inp (snd (cut_kind inp)) out reason
+  | Some reason when fst (cut_kind inp) = "T" -> Some reason      (* Sort is in none of the known findings *)
   | Some reason ->
     let big = (fst (cut_kind inp) = "B") and rec_ = !fail_rec in
     let pinned_out = eval_with M.pinned inp in
